@@ -496,4 +496,41 @@ example : (nameToRowOfTree [(5, [10, 12]), (3, [11])]).toOption.map
     = some (some 1, some 0, none) := by
   decide +kernel
 
+
+/-- "addressed through its own cluster-to-row ... tables" and additivity on the
+reading side (`read_precomputed_stats` / `aggregate_stats`): if every leaf of
+the population has a row of the file (through `cluster_to_row`), aggregation
+succeeds; `n` is the sum of `n_cells` over the addressed rows, and for every
+gene `j` (rows of `g` genes) mean and variance are `meanOf` / `varOf` of the
+summed `n`, `sum`, `sumsq`, and the three counts are the sums of the rows'
+counts: leaves combine additively.  (`mean_var` says that `meanOf`/`varOf` of
+`(n, Σx, Σx²)` are the mean and the sample variance.) -/
+theorem aggregate_spec (g : Nat) (data : Buffer) (clusterToRow : List (Nat × Nat))
+    (leaves : List Nat)
+    (hlook : ∀ l ∈ leaves, ∃ i, clusterToRow.lookup l = some i ∧ i < data.length) :
+    ∃ a, aggregateStats g data clusterToRow leaves = .ok a ∧
+      (addressedRows data clusterToRow leaves).length = leaves.length ∧
+      a.n = ((addressedRows data clusterToRow leaves).map (·.n)).sum ∧
+      ((∀ r ∈ addressedRows data clusterToRow leaves, r.genes.length = g) →
+        ∀ j : Nat, j < g →
+        a.mean[j]? = some (meanOf a.n ((addressedRows data clusterToRow leaves).map
+          (fun r => (r.genes.getD j GStat.zero).sum)).sum) ∧
+        a.var[j]? = some (varOf a.n
+          ((addressedRows data clusterToRow leaves).map
+            (fun r => (r.genes.getD j GStat.zero).sum)).sum
+          ((addressedRows data clusterToRow leaves).map
+            (fun r => (r.genes.getD j GStat.zero).sumsq)).sum) ∧
+        a.gt0[j]? = some ((addressedRows data clusterToRow leaves).map
+          (fun r => (r.genes.getD j GStat.zero).gt0)).sum ∧
+        a.gt1[j]? = some ((addressedRows data clusterToRow leaves).map
+          (fun r => (r.genes.getD j GStat.zero).gt1)).sum ∧
+        a.ge1[j]? = some ((addressedRows data clusterToRow leaves).map
+          (fun r => (r.genes.getD j GStat.zero).ge1)).sum) :=
+  aggregateStats_spec g data clusterToRow leaves hlook
+
+example : aggregateStats 1 [⟨2, [⟨4, 10, 2, 1, 2⟩]⟩, ⟨5, [⟨9, 9, 9, 9, 9⟩]⟩, ⟨1, [⟨2, 4, 1, 1, 1⟩]⟩]
+      [(30, 0), (31, 2), (32, 1)] [31, 30]
+    = .ok ⟨3, [2], [1], [3], [2], [3]⟩ := by
+  decide +kernel
+
 end CTM.C09
